@@ -132,7 +132,7 @@ def latmio_dir_connected(R, itr, D=None, seed=None):
                 _verif_emit('attempt', fn='latmio_dir_connected', acc=0, a=a, b=b, c=c, d=d, e1=e1, e2=e2, i=i, j=j, R=R, eff=eff, att=att, it=it)
             att += 1
 
-    Rlatt = R[np.ix_(ind_rp[::-1], ind_rp[::-1])]  # reverse random permutation
+    Rlatt = R[np.ix_(np.argsort(ind_rp), np.argsort(ind_rp))]  # reverse random permutation
 
     return Rlatt, R, ind_rp, eff
 
@@ -233,7 +233,7 @@ def latmio_dir(R, itr, D=None, seed=None):
                 _verif_emit('attempt', fn='latmio_dir', acc=0, a=a, b=b, c=c, d=d, e1=e1, e2=e2, i=i, j=j, R=R, eff=eff, att=att, it=it)
             att += 1
 
-    Rlatt = R[np.ix_(ind_rp[::-1], ind_rp[::-1])]  # reverse random permutation
+    Rlatt = R[np.ix_(np.argsort(ind_rp), np.argsort(ind_rp))]  # reverse random permutation
 
     return Rlatt, R, ind_rp, eff
 
@@ -376,7 +376,7 @@ def latmio_und_connected(R, itr, D=None, seed=None):
                 _verif_emit('attempt', fn='latmio_und_connected', acc=0, a=a, b=b, c=c, d=d, e1=e1, e2=e2, i=i, j=j, R=R, eff=eff, att=att, it=it)
             att += 1
 
-    Rlatt = R[np.ix_(ind_rp[::-1], ind_rp[::-1])]
+    Rlatt = R[np.ix_(np.argsort(ind_rp), np.argsort(ind_rp))]
     return Rlatt, R, ind_rp, eff
 
 
@@ -487,7 +487,7 @@ def latmio_und(R, itr, D=None, seed=None):
                 _verif_emit('attempt', fn='latmio_und', acc=0, a=a, b=b, c=c, d=d, e1=e1, e2=e2, i=i, j=j, R=R, eff=eff, att=att, it=it)
             att += 1
 
-    Rlatt = R[np.ix_(ind_rp[::-1], ind_rp[::-1])]
+    Rlatt = R[np.ix_(np.argsort(ind_rp), np.argsort(ind_rp))]
     return Rlatt, R, ind_rp, eff
 
 
